@@ -1,0 +1,23 @@
+//go:build verif
+
+// Contracts for the contract-based verification in /verif (comment-only file).
+
+package onehop
+
+//@ # ---- one-hop path codec (C18, C07): info field, first hop, second hop at offsets 0, 8, 20
+//@ func (*Path).SerializeTo
+//@   props C18 C07
+//@   modifies arr(b)
+//@   ensures (result == nil) == (len(b) >= 32)
+//@   ensures result == nil ==> arrUpd(b, 0, ite(o.Info.ConsDir, 1, 0)|ite(o.Info.Peer, 2, 0), 0, uint8(o.Info.SegID>>8), uint8(o.Info.SegID), uint8(o.Info.Timestamp>>24), uint8(o.Info.Timestamp>>16), uint8(o.Info.Timestamp>>8), uint8(o.Info.Timestamp), ite(o.FirstHop.EgressRouterAlert, 1, 0)|ite(o.FirstHop.IngressRouterAlert, 2, 0), o.FirstHop.ExpTime, uint8(o.FirstHop.ConsIngress>>8), uint8(o.FirstHop.ConsIngress), uint8(o.FirstHop.ConsEgress>>8), uint8(o.FirstHop.ConsEgress), o.FirstHop.Mac[0], o.FirstHop.Mac[1], o.FirstHop.Mac[2], o.FirstHop.Mac[3], o.FirstHop.Mac[4], o.FirstHop.Mac[5], ite(o.SecondHop.EgressRouterAlert, 1, 0)|ite(o.SecondHop.IngressRouterAlert, 2, 0), o.SecondHop.ExpTime, uint8(o.SecondHop.ConsIngress>>8), uint8(o.SecondHop.ConsIngress), uint8(o.SecondHop.ConsEgress>>8), uint8(o.SecondHop.ConsEgress), o.SecondHop.Mac[0], o.SecondHop.Mac[1], o.SecondHop.Mac[2], o.SecondHop.Mac[3], o.SecondHop.Mac[4], o.SecondHop.Mac[5])
+//@   ensures result != nil ==> arrSame(b)
+
+//@ func (*Path).DecodeFromBytes
+//@   props C18 C08
+//@   modifies *o
+//@   ensures (result == nil) == (len(data) >= 32)
+//@   ensures result == nil ==> o.Info.ConsDir == (data[0]&1 == 1) && o.Info.Peer == (data[0]&2 == 2) && o.Info.SegID == uint16(data[2])<<8|uint16(data[3]) && o.Info.Timestamp == uint32(data[4])<<24|uint32(data[5])<<16|uint32(data[6])<<8|uint32(data[7])
+//@   ensures result == nil ==> o.FirstHop.EgressRouterAlert == (data[8]&1 == 1) && o.FirstHop.IngressRouterAlert == (data[8]&2 == 2) && o.FirstHop.ExpTime == data[9] && o.FirstHop.ConsIngress == uint16(data[10])<<8|uint16(data[11]) && o.FirstHop.ConsEgress == uint16(data[12])<<8|uint16(data[13])
+//@   ensures result == nil ==> o.FirstHop.Mac[0] == data[14] && o.FirstHop.Mac[1] == data[15] && o.FirstHop.Mac[2] == data[16] && o.FirstHop.Mac[3] == data[17] && o.FirstHop.Mac[4] == data[18] && o.FirstHop.Mac[5] == data[19]
+//@   ensures result == nil ==> o.SecondHop.EgressRouterAlert == (data[20]&1 == 1) && o.SecondHop.IngressRouterAlert == (data[20]&2 == 2) && o.SecondHop.ExpTime == data[21] && o.SecondHop.ConsIngress == uint16(data[22])<<8|uint16(data[23]) && o.SecondHop.ConsEgress == uint16(data[24])<<8|uint16(data[25])
+//@   ensures result == nil ==> o.SecondHop.Mac[0] == data[26] && o.SecondHop.Mac[1] == data[27] && o.SecondHop.Mac[2] == data[28] && o.SecondHop.Mac[3] == data[29] && o.SecondHop.Mac[4] == data[30] && o.SecondHop.Mac[5] == data[31]
